@@ -123,6 +123,6 @@ def run(ctx, rep):
             ok = vals == ["node.name"]
         rep.check(ok, "N6", "C17|N6|%s" % vname, cfg.where(fnm), "Symbol::%s.get_name() must be the node's own name as written; extracted %r" % (vname, [fmt_label(v) for v in vals]), sample={"variant": vname, "name": [fmt_label(v) for v in vals]})
     # N5
-    c05.resolve_type_rules(ctx, rep, "C17")
+    c05.resolve_type_rules(ctx, rep, "C17", builtin_precedence=False)
     c05.builtin_tables(ctx, rep, "C17")
     rep.assumptions += ["TB-1 rustc MIR (format templates are read from rustc's compact format_args encoding)", "TB-4 tabulator", "names stored in the tree are the identifiers written in the source (grammar wiring rule, C02)"]
